@@ -293,6 +293,15 @@ int main(void)
 		hc->private_data = hd;
 		hc->name = 0;
 		rc = unix_close(hc);
+#ifdef FAULT
+		if (VF_FAULT_HAPPENED) {
+			/* the last chance to learn that a dirty block never reached the device */
+			PROP(rc != 0, "a failed device write is reported to the caller");
+			PROP(vf_closed == 1, "close closes the descriptor once");
+			VF_END();
+			return 0;
+		}
+#endif
 		PROP(rc == 0, "close succeeds");
 		for (i = 0; i < F; i++)
 			PROP(vf_dev[i] == Mb[i], "after close the backing file holds exactly the written bytes");
